@@ -84,7 +84,7 @@ fn tree<F: Float>(case: &Case, spec: &BuilderSpec, out: &mut Outcome) {
         |p| p.fit(&ds).map(|m| show(&m)).map_err(|e: linfa::Error| dbg(&e)),
         |e| dbg(&e),
     )];
-    judge(case, spec, &base, &set, Some(&|p| p.clone()), &|p| dbg(p), &|c| dbg(c), ops, out);
+    judge(case, spec, &base, &set, Some(&|p| p.clone()), &[], &|p| dbg(p), &|c| dbg(c), ops, out);
 }
 
 // ------------------------------------------------------------------------------------------
@@ -134,7 +134,7 @@ fn gnb<F: Float>(case: &Case, spec: &BuilderSpec, out: &mut Outcome) {
             |e| dbg(&e),
         ),
     ];
-    judge(case, spec, &base, &set, Some(&|p| p.clone()), &|p| dbg(p), &|c| dbg(c), ops, out);
+    judge(case, spec, &base, &set, Some(&|p| p.clone()), &[], &|p| dbg(p), &|c| dbg(c), ops, out);
 }
 
 fn mnb<F: Float>(case: &Case, spec: &BuilderSpec, out: &mut Outcome) {
@@ -159,7 +159,7 @@ fn mnb<F: Float>(case: &Case, spec: &BuilderSpec, out: &mut Outcome) {
             |e| dbg(&e),
         ),
     ];
-    judge(case, spec, &base, &set, Some(&|p| p.clone()), &|p| dbg(p), &|c| dbg(c), ops, out);
+    judge(case, spec, &base, &set, Some(&|p| p.clone()), &[], &|p| dbg(p), &|c| dbg(c), ops, out);
 }
 
 // ------------------------------------------------------------------------------------------
@@ -207,7 +207,7 @@ fn ftrl<F: Float>(case: &Case, spec: &BuilderSpec, out: &mut Outcome) {
         |p| p.fit_with(None, &ds).map(|m| dbg(&m)).map_err(|e: FtrlError| dbg(&e)),
         |e| dbg(&e),
     )];
-    judge(case, spec, &base, &set, Some(&|p| p.clone()), &|p| dbg(p), &|c| dbg(c), ops, out);
+    judge(case, spec, &base, &set, Some(&|p| p.clone()), &[], &|p| dbg(p), &|c| dbg(c), ops, out);
 }
 
 // ------------------------------------------------------------------------------------------
@@ -282,7 +282,7 @@ macro_rules! pls_builder {
                 |e| dbg(&e),
             )];
             // the PLS builders implement neither Debug nor PartialEq: no snapshot
-            judge(case, spec, &base, &set, None, &|_| String::new(), &|_| String::new(), ops, out);
+            judge(case, spec, &base, &set, None, &[], &|_| String::new(), &|_| String::new(), ops, out);
         }
     };
 }
@@ -364,7 +364,7 @@ fn tsne<F: Float>(case: &Case, spec: &BuilderSpec, out: &mut Outcome) {
         |p| p.transform(data.clone()).map(|m| dbg(&m)).map_err(|e| dbg(&e)),
         |e| dbg(&e),
     )];
-    judge(case, spec, &base, &set, Some(&|p| p.clone()), &|p| dbg(p), &|c| dbg(c), ops, out);
+    judge(case, spec, &base, &set, Some(&|p| p.clone()), &[], &|p| dbg(p), &|c| dbg(c), ops, out);
 }
 
 // ------------------------------------------------------------------------------------------
@@ -402,7 +402,7 @@ fn ica<F: Float>(case: &Case, spec: &BuilderSpec, out: &mut Outcome) {
         |p| p.fit(&ds).map(|m| dbg(&m)).map_err(|e: linfa_ica::error::FastIcaError| dbg(&e)),
         |e| dbg(&e),
     )];
-    judge(case, spec, &base, &set, Some(&|p| p.clone()), &|p| dbg(p), &|c| dbg(c), ops, out);
+    judge(case, spec, &base, &set, Some(&|p| p.clone()), &[], &|p| dbg(p), &|c| dbg(c), ops, out);
 }
 
 // ------------------------------------------------------------------------------------------
@@ -442,7 +442,7 @@ fn dmap<F: Float>(case: &Case, spec: &BuilderSpec, out: &mut Outcome) {
     let make = || set(base(), case);
     let show = |m: &DiffusionMap<F>| format!("eigvals={:?} embedding={:?}", m.eigvals(), m.embedding());
     let ops = vec![op(&make, "transform", |p| p.transform(&kernel).map(|m| show(&m)).map_err(|e| dbg(&e)), |p| Ok(show(&p.transform(&kernel))), |e| dbg(&e))];
-    judge(case, spec, &base, &set, Some(&|p| p.clone()), &|p| dbg(p), &|c| dbg(c), ops, out);
+    judge(case, spec, &base, &set, Some(&|p| p.clone()), &[], &|p| dbg(p), &|c| dbg(c), ops, out);
 }
 
 // ------------------------------------------------------------------------------------------
@@ -536,7 +536,7 @@ macro_rules! rp_builder {
                 |e| dbg(&e),
             )];
             // RandomProjectionParams implements neither Debug nor PartialEq: no snapshot of the unchecked builder
-            judge(case, spec, &base, &set, None, &|_| String::new(), &|c| format!("target_dim={:?} eps={:?}", c.target_dim(), c.eps()), ops, out);
+            judge(case, spec, &base, &set, None, &[], &|_| String::new(), &|c| format!("target_dim={:?} eps={:?}", c.target_dim(), c.eps()), ops, out);
         }
     };
 }
@@ -616,7 +616,7 @@ fn platt<F: Float>(case: &Case, spec: &BuilderSpec, out: &mut Outcome) {
         |p| p.fit_with(FirstColumn, &ds).map(|m| show(&m)).map_err(|e: PlattError| dbg(&e)),
         |e| dbg(&e),
     )];
-    judge(case, spec, &base, &set, Some(&|p| p.clone()), &|p| dbg(p), &|c| dbg(c), ops, out);
+    judge(case, spec, &base, &set, Some(&|p| p.clone()), &[], &|p| dbg(p), &|c| dbg(c), ops, out);
     // observation (not demanded by the property statement): maxiter = 0 is reported with the
     // "did not converge" variant although a dedicated MaxIterZero variant exists
     if case.u("maxiter") == 0 {
@@ -726,7 +726,7 @@ fn count_vectorizer(case: &Case, spec: &BuilderSpec, out: &mut Outcome) {
             |e| dbg(&e),
         ),
     ];
-    judge(case, spec, &base, &set, Some(&|p| p.clone()), &|p| mask_regex_cache(dbg(p)), &|c| mask_regex_cache(dbg(c)), ops, out);
+    judge(case, spec, &base, &set, Some(&|p| p.clone()), &[], &|p| mask_regex_cache(dbg(p)), &|c| mask_regex_cache(dbg(c)), ops, out);
 }
 
 // ------------------------------------------------------------------------------------------
@@ -899,5 +899,5 @@ fn mock(case: &Case, spec: &BuilderSpec, out: &mut Outcome) {
             |e| dbg(&e),
         ),
     ];
-    judge(case, spec, &base, &set, Some(&|p| p.clone()), &|p| dbg(p), &|c| dbg(c), ops, out);
+    judge(case, spec, &base, &set, Some(&|p| p.clone()), &[], &|p| dbg(p), &|c| dbg(c), ops, out);
 }
